@@ -13,9 +13,9 @@ package suites
 //	                  route of the answer (Client.write / Client.Send) is observable.
 //	pingnick.collide  the same case format over the wire: every event is a line written by
 //	                  the peer, a PING/PONG exchange delimits what the client wrote for it.
-//	pingnick.pending  as pingnick.seq with the oracle classes of defects that are not repaired
-//	                  in /repo (tracking disabled; non-ASCII nicknames). NOT part of
-//	                  conf/C17.json; see notes/design/C17.md.
+//	pingnick.edge     as pingnick.seq, half of the cases with tracking disabled, hostile
+//	                  parameters and non-ASCII nicknames throughout (the two sequences the
+//	                  handler got wrong before the C17 fixes).
 //
 // A sequence case is: nick, callback kind ("" none, "c" constant, "a" append, "p" prepend),
 // callback argument, flags ("T" = tracking disabled), then one argument per event: fields
@@ -394,9 +394,14 @@ func pnIsCollision(cmd string) bool {
 	return cmd == girc.ERR_NICKNAMEINUSE || cmd == girc.ERR_NICKCOLLISION || cmd == girc.ERR_UNAVAILRESOURCE
 }
 
-// runPNSeq runs a sequence case. connected: events are lines written by the peer;
-// pending: report the classes of the defects that are not repaired.
-func runPNSeq(c Case, connected, pending bool) Result {
+// pnNickLike: a nickname as far as the collision handler can tell (not empty, no SPACE or
+// ',', does not start like a channel).
+func pnNickLike(s string) bool {
+	return s != "" && !strings.ContainsAny(s[:1], "!#&*~+") && !strings.ContainsAny(s, " ,")
+}
+
+// runPNSeq runs a sequence case. connected: events are lines written by the peer.
+func runPNSeq(c Case, connected bool) Result {
 	if len(c) < 4 {
 		return Result{Obs: "?short-case", Sig: "trivial"}
 	}
@@ -534,17 +539,8 @@ func runPNSeq(c Case, connected, pending bool) Result {
 			}
 			if panicked {
 				sigs["panic"] = true
-				if noTracking {
-					if pending {
-						fail("collide-notracking-panic", "event %d: %s with tracking disabled: the collision handler panicked (GetNick) and asked for nothing", i, ev.cmd)
-					}
-				} else {
-					fail("collide-panic", "event %d: the collision handler panicked", i)
-				}
+				fail("collide-panic", "event %d: %s: the collision handler panicked and asked for nothing", i, ev.cmd)
 				break
-			}
-			if noTracking {
-				break // nothing is stated about GetNick-less clients beyond the panic
 			}
 			if cb != nil {
 				want := cb(cur)
@@ -573,7 +569,7 @@ func runPNSeq(c Case, connected, pending bool) Result {
 				rejected = append(rejected, ev.params[1])
 			}
 			switch {
-			case echo && specNick(req):
+			case echo && pnNickLike(req):
 				k++
 				kk := k
 				if kk > 3 {
@@ -590,11 +586,6 @@ func runPNSeq(c Case, connected, pending bool) Result {
 				}
 			case echo:
 				sigs["echo-invalid-"+where] = true
-				for _, r := range rejected {
-					if r == prop && pending {
-						fail("collide-invalid-nick-repeat", "event %d: %q (not a nickname by IsValidNick) was refused and is proposed again", i, prop)
-					}
-				}
 				base, k = prop, 0
 			default:
 				sigs["noecho-"+where] = true
@@ -955,17 +946,17 @@ func init() {
 		Prop:  []string{"C17"},
 		Fixed: pnFixedSeq,
 		Gen:   func(r *rand.Rand) Case { return genPNSeqCase(r, r.Intn(3) == 0) },
-		Run:   func(c Case) Result { return runPNSeq(c, false, false) },
+		Run:   func(c Case) Result { return runPNSeq(c, false) },
 	})
 	Register(&Suite{
 		Name:  "pingnick.collide",
 		Prop:  []string{"C17"},
 		Fixed: pnFixedSeq,
 		Gen:   func(r *rand.Rand) Case { return genPNSeqCase(r, false) },
-		Run:   func(c Case) Result { return runPNSeq(c, true, false) },
+		Run:   func(c Case) Result { return runPNSeq(c, true) },
 	})
 	Register(&Suite{
-		Name: "pingnick.pending",
+		Name: "pingnick.edge",
 		Prop: []string{"C17"},
 		Fixed: func() []Case {
 			in := pnEv("433", "=irc.test", "*", "$R", "Nickname is already in use.")
@@ -983,6 +974,6 @@ func init() {
 			}
 			return c
 		},
-		Run: func(c Case) Result { return runPNSeq(c, false, true) },
+		Run: func(c Case) Result { return runPNSeq(c, false) },
 	})
 }
